@@ -351,6 +351,14 @@ def _is_ref_alt(I, dcalls, D, st):
 
 
 def _same_mask(pr, a, mask):
+    from .c19 import _adds_axes_only
+    for _ in range(3):          # mask[:, None], mask[..., np.newaxis], mask.T: the same mask, broadcast
+        if a.op == "Subscript" and _adds_axes_only(a.args[1]):
+            a = a.args[0]
+        elif a.op == "Attr" and a.attr == "T":
+            a = a.args[0]
+        else:
+            break
     try:
         e = pr.equivalent(pr.formula(a), pr.formula(mask))
         return bool(e and e[0]) and a.op in ("Compare", "UnaryOp", "BinOp", "BoolOp", "Call")
